@@ -228,6 +228,7 @@ func (m c05) checkSeq(c *fw.Ctx, tab []gts.Feature, hostB []byte, alpha string) 
 		c.ViolateX("seq:"+panicClass(site, val), enc, "no panic", fmt.Sprint(val), stack, nil)
 		return
 	}
+	c.Hold(enc, func() string { return heldSeq(rev, comp, rc, rr, cc) })
 	wantRev := make([]byte, L)
 	wantComp := make([]byte, L)
 	for i := range hostB {
